@@ -1,12 +1,25 @@
 import XmppModel.Model.Serve
+import XmppModel.Lemmas.Serve
 /-!
 # C08 — handlers see one element at a time; stream-level input never reaches them
 
 Property theorems only (helpers are in `Lemmas/Serve.lean`).  Quantifiers: every token list the
-decoder can produce (in fact every token list), every handler program.
+decoder can produce (in fact every token list), every list of handler programs (any reads and
+writes, any return value).
 -/
 namespace XmppModel.Props.C08
 open XmppModel XmppModel.Xml XmppModel.Serve
+
+/-! ### stream-level input never reaches a handler -/
+
+/-- **nothing stream-level is ever visible**: for every input and all handler programs, every
+invocation starts at a start tag outside the stream namespace and every token any of its reads
+returns is ordinary content (text, or a start / end tag outside the stream namespace) — never a
+comment, processing instruction, directive, stream error, stream restart or other
+stream-namespace element, at any nesting depth -/
+theorem C08_stream_level_hidden (cfg : Cfg) (inp : List Tok) (progs : List Prog) :
+    ∀ i ∈ (serve cfg inp progs).invs, InvClean i :=
+  serveF_clean cfg _ _ progs
 
 /-- the peer's closing tag ends `Serve` without error and without any invocation, whatever
 follows it and whatever the handlers are -/
@@ -14,5 +27,62 @@ theorem C08_peer_close (cfg : Cfg) (rest : List Tok) (progs : List Prog) :
     serve cfg (.stop ⟨nsStream, "stream"⟩ :: rest) progs
       = { invs := [], written := [], result := .clean } := by
   simp [serve, serveF, handleInputStream, RS.next, RS.init, verdict, nsStream]
+
+/-- a white-space keep-alive between elements is ignored -/
+theorem C08_keepalive (cfg : Cfg) (s : String) (hs : isWs s = true) (inp : List Tok) (progs : List Prog) :
+    serve cfg (.chars s :: inp) progs = serve cfg inp progs := by
+  simp [serve, serveF, handleInputStream, RS.next, RS.init, verdict, hs]
+
+/-- text other than white space between elements ends the session with an error -/
+theorem C08_top_chardata (cfg : Cfg) (s : String) (hs : isWs s = false) (rest : List Tok) (progs : List Prog) :
+    serve cfg (.chars s :: rest) progs = { invs := [], written := [], result := .error .chardata } := by
+  simp [serve, serveF, handleInputStream, RS.next, RS.init, verdict, hs]
+
+theorem C08_top_comment (cfg : Cfg) (c : String) (rest : List Tok) (progs : List Prog) :
+    serve cfg (.comment c :: rest) progs = { invs := [], written := [], result := .error .comment } := by
+  simp [serve, serveF, handleInputStream, RS.next, RS.init, verdict]
+
+theorem C08_top_procInst (cfg : Cfg) (a b : String) (rest : List Tok) (progs : List Prog) :
+    serve cfg (.procInst a b :: rest) progs = { invs := [], written := [], result := .error .procInst } := by
+  simp [serve, serveF, handleInputStream, RS.next, RS.init, verdict]
+
+theorem C08_top_directive (cfg : Cfg) (c : String) (rest : List Tok) (progs : List Prog) :
+    serve cfg (.directive c :: rest) progs = { invs := [], written := [], result := .error .directive } := by
+  simp [serve, serveF, handleInputStream, RS.next, RS.init, verdict]
+
+/-- a stream restart after negotiation ends the session with the restart error -/
+theorem C08_top_restart (cfg : Cfg) (as : List Attr) (rest : List Tok) (progs : List Prog) :
+    serve cfg (.start ⟨nsStream, "stream"⟩ as :: rest) progs
+      = { invs := [], written := [], result := .error .restart } := by
+  simp [serve, serveF, handleInputStream, RS.next, RS.init, verdict, nsStream]
+
+/-- any other element of the stream namespace ends the session -/
+theorem C08_top_unknown (cfg : Cfg) (l : String) (as : List Attr) (rest : List Tok) (progs : List Prog)
+    (h1 : l ≠ "error") (h2 : l ≠ "stream") :
+    serve cfg (.start ⟨nsStream, l⟩ as :: rest) progs
+      = { invs := [], written := [], result := .error .unknownElem } := by
+  simp [serve, serveF, handleInputStream, RS.next, RS.init, verdict, h1, h2]
+
+/-- **a received stream error is returned as such**: the session ends with that error (its
+condition is the one the peer sent) and no handler runs -/
+theorem C08_top_stream_error (cfg : Cfg) (as : List Attr) (rest : List Tok) (progs : List Prog)
+    (c : String) (hc : closes 0 rest = true) (hcond : seCond rest = some c) :
+    serve cfg (.start ⟨nsStream, "error"⟩ as :: rest) progs
+      = { invs := [], written := [], result := .error (.streamError c) } := by
+  simp [serve, serveF, handleInputStream, RS.next, RS.init, verdict, hc, hcond]
+
+/-- the same error is what negotiation ends with when the stream error arrives in the place of
+a stream header (with or without a preceding XML declaration) -/
+theorem C08_header_stream_error (as : List Attr) (rest : List Tok) (c : String)
+    (hc : closes 0 rest = true) (hcond : seCond rest = some c) :
+    expectHeader (.start ⟨nsStream, "error"⟩ as :: rest) = "se:" ++ c ∧
+    expectHeader (.procInst "xml" "version=\"1.0\"" :: .start ⟨nsStream, "error"⟩ as :: rest) = "se:" ++ c := by
+  simp [expectHeader, expectHeader1, verdict, hc, hcond, Err.name, nsStream]
+
+example : closes 0 [Tok.start ⟨"urn:ietf:params:xml:ns:xmpp-streams", "host-gone"⟩ [],
+    .stop ⟨"urn:ietf:params:xml:ns:xmpp-streams", "host-gone"⟩, .stop ⟨nsStream, "error"⟩] = true ∧
+    seCond [Tok.start ⟨"urn:ietf:params:xml:ns:xmpp-streams", "host-gone"⟩ [],
+    .stop ⟨"urn:ietf:params:xml:ns:xmpp-streams", "host-gone"⟩, .stop ⟨nsStream, "error"⟩] = some "host-gone" := by
+  decide
 
 end XmppModel.Props.C08
